@@ -168,6 +168,11 @@ impl Runner {
                         if let Some(before) = before {
                             if logical(&before) != logical(&after) {
                                 let what = format!("{}: state after restart differs from state before: {}", ctx, diff_logical(&logical(&after), &logical(&before)));
+                                // while no file has ever been deleted the WAL still holds every entry
+                                // written: a restart mismatch then means entries did not round-trip
+                                if self.stats.get("unlink") + self.stats.get("unlink.at_open") == 0 {
+                                    self.violate("C07", format!("{} (no WAL file was ever removed: the written entries were not read back)", what));
+                                }
                                 self.violate("C01", what);
                             }
                             self.stats.inc("restart.compared");
